@@ -17,6 +17,7 @@
 #include <list>
 #include <memory>
 #include <string>
+#include <cstring>
 #include <utility>
 
 #include "common.hpp"
@@ -1057,12 +1058,56 @@ static void probeNonContiguous() {
   if (!bad.empty()) std::printf("NONCONTIG random access but not contiguous iterators: %s (cplusplus=%ld)\n", bad.c_str(), static_cast<long>(__cplusplus));
 }
 
+// Source and destination of different types: each element is CONVERTED (static_cast semantics), never copied as bytes, whatever
+// the sizes of the two types.  The object representation of every destination element is compared with the one std's algorithm
+// (or a plain loop) produces.  Only a mismatch prints a line.
+template <class Src, class Dst>
+static void probeConvertingOne(const char *nm, std::string &bad) {
+  const Src raw[] = {static_cast<Src>(0), static_cast<Src>(1), static_cast<Src>(2), static_cast<Src>(64), static_cast<Src>(-1), static_cast<Src>(-128),
+                     static_cast<Src>(127)};
+  const int n = static_cast<int>(sizeof(raw) / sizeof(raw[0]));
+  Dst want[n];
+  for (int i = 0; i < n; ++i) want[i] = static_cast<Dst>(raw[i]);
+  std::list<Src> lst(raw, raw + n);
+  for (int form = 0; form < 4; ++form) {
+    alignas(Dst) unsigned char buf[sizeof(Dst) * n];
+    std::memset(buf, 0xAB, sizeof(buf));
+    Dst *dst = reinterpret_cast<Dst *>(buf);
+    const char *what = "?";
+    switch (form) {
+      case 0: what = "uninitialized_copy_n(pointer)"; amc::uninitialized_copy_n(raw, n, dst); break;
+      case 1: what = "uninitialized_copy(pointers)"; amc::uninitialized_copy(raw, raw + n, dst); break;
+      case 2: what = "uninitialized_copy_n(list)"; amc::uninitialized_copy_n(lst.begin(), n, dst); break;
+      default: what = "uninitialized_move_n(pointer)"; { Src tmp[n]; for (int i = 0; i < n; ++i) tmp[i] = raw[i]; amc::uninitialized_move_n(tmp, n, dst); } break;
+    }
+    if (std::memcmp(static_cast<const void *>(dst), static_cast<const void *>(want), sizeof(Dst) * n) != 0) {
+      int i = 0;
+      while (std::memcmp(static_cast<const void *>(dst + i), static_cast<const void *>(want + i), sizeof(Dst)) == 0) ++i;
+      bad += std::string(bad.empty() ? "" : "; ") + nm + " " + what + ": element " + std::to_string(i) + " has first byte " +
+             std::to_string(static_cast<int>(buf[sizeof(Dst) * i])) + ", a converted element has " +
+             std::to_string(static_cast<int>(reinterpret_cast<const unsigned char *>(want + i)[0]));
+    }
+  }
+}
+static void probeConverting() {
+  std::string bad;
+  probeConvertingOne<char, bool>("char->bool", bad);
+  probeConvertingOne<unsigned char, bool>("unsigned char->bool", bad);
+  probeConvertingOne<signed char, unsigned char>("signed char->unsigned char", bad);
+  probeConvertingOne<unsigned, int>("unsigned->int", bad);
+  probeConvertingOne<int, float>("int->float", bad);
+  probeConvertingOne<int, long>("int->long", bad);
+  probeConvertingOne<short, unsigned short>("short->unsigned short", bad);
+  if (!bad.empty()) std::printf("CONVERT source and destination of different types: %s (cplusplus=%ld)\n", bad.c_str(), static_cast<long>(__cplusplus));
+}
+
 int main(int argc, char **argv) {
   if (argc > 1) gMaxN = std::atoi(argv[1]);
   std::printf("MEMDRV cplusplus=%ld maxn=%d\n", static_cast<long>(__cplusplus), gMaxN);
 #if !defined(GROUP) || GROUP == 0
   probeArgumentForwarding();
   probeNonContiguous();
+  probeConverting();
 #endif
 #ifdef GROUP
 #if GROUP / 4 == 0
